@@ -245,29 +245,71 @@ def must_survive(c, out, star_above=False):
         return
     # sequences: decide on the values, exactly like the documented alignment (common prefix, then common
     # suffix of the remainders, replacement when the middles have equal length and no equal pair)
-    def val(d):
-        v = gv.build(d)
-        return ("v", repr(v), type(v).__name__)
+    class Unknown:
+        """a nested container that holds a dirty-equals matcher: its equality is not modelled"""
+
+    def value_of(cc, side):
+        """python value of a (nested) container on the old / new side, or Unknown"""
+        items = []
+        for j, e in enumerate(cc["elems"]):
+            if side == "new":
+                for pos, v, k in cc["inserts"]:
+                    if pos == j:
+                        items.append((k, gv.build(v)))
+                if e["op"] == "deleted":
+                    continue
+            if e["type"] == "nested":
+                v = value_of(e["sub"], side)
+                if v is Unknown:
+                    return Unknown
+            elif e["type"] == "dirty" and side == "old":
+                return Unknown
+            else:
+                v = gv.build(e["old"] if side == "old" else e["new"])
+            items.append((e.get("key"), v))
+        if side == "new":
+            for pos, v, k in cc["inserts"]:
+                if pos >= len(cc["elems"]):
+                    items.append((k, gv.build(v)))
+        if cc["kind"] == "list":
+            return [v for _k, v in items]
+        if cc["kind"] == "tuple":
+            return tuple(v for _k, v in items)
+        if cc["kind"] == "dict":
+            return {(gv.build(k) if isinstance(k, list) else k): v for k, v in items}
+        return gv.CLASSES[cc["cls"]](**{k: v for k, v in items})
 
     def old_val(j, e):
         if e["type"] == "nested":
-            return ("nested", j, "old")
+            return ("val", value_of(e["sub"], "old"))
         if e["type"] == "dirty":
             return ("dirty", e["text"].split("(")[0])
-        return val(e["old"])
+        return ("val", gv.build(e["old"]))
 
     def new_val(j, e):
         if e["type"] == "nested":
-            return ("nested", j, "old" if not has_pending(e["sub"]) else "new")
-        return val(e["new"])
+            return ("val", value_of(e["sub"], "new"))
+        return ("val", gv.build(e["new"]))
+
+    def val(d):
+        return ("val", gv.build(d))
+
+    def veq3(a, b):
+        """three-valued: True / False / None (unknown); a is the old side"""
+        if a[0] == "dirty":
+            v = b[1]
+            if v is Unknown:
+                return None
+            return {"IsInt": type(v) is int, "IsStr": type(v) is str, "AnyThing": True}[a[1]]
+        if a[1] is Unknown or b[1] is Unknown:
+            return None
+        try:
+            return bool(a[1] == b[1])
+        except Exception:
+            return None
 
     def veq(a, b):
-        # a: old side, b: new side; a dirty-equals matcher is equal to every value it matches
-        if a[0] == "dirty":
-            if b[0] != "v":
-                return a[1] == "AnyThing"
-            return {"IsInt": b[2] == "int", "IsStr": b[2] == "str", "AnyThing": True}[a[1]]
-        return a == b
+        return veq3(a, b) is True
 
     old_vals = [old_val(j, e) for j, e in enumerate(c["elems"])]
     new_vals = []
@@ -289,7 +331,7 @@ def must_survive(c, out, star_above=False):
     mid_old = old_vals[p:n - s]
     mid_new = new_vals[p:len(new_vals) - s]
     replaced = set()
-    if len(mid_old) == len(mid_new) and not any(veq(a, b) for a in mid_old for b in mid_new):
+    if len(mid_old) == len(mid_new) and all(veq3(a, b) is False for a in mid_old for b in mid_new):
         replaced = set(range(p, n - s))
     for i in sorted(idxs | replaced):
         e = c["elems"][i]
@@ -298,8 +340,9 @@ def must_survive(c, out, star_above=False):
                 must_survive(e["sub"], out)
             else:
                 # replaced position: only when the counterpart is this very container (same kind, edited)
-                k = i - p
-                if k < len(mid_new) and mid_new[k][:2] == ("nested", i):
+                # (the counterpart at this position is the edited container itself when nothing was
+                # inserted or removed in this sequence)
+                if not c["inserts"] and not any(x["op"] == "deleted" for x in c["elems"]) and e["op"] != "deleted":
                     must_survive(e["sub"], out)
         elif e["type"] in ("is", "fstr", "dirty"):
             out.append(e["text"])
@@ -392,7 +435,13 @@ def check(case):
 
     # wrappers of non-deleted inner snapshots under surviving keys must be present
     if c["kind"] in ("dict", "call") and c.get("star") is None:
-        want = sum(1 for e in c["elems"] if e["type"] == "snap" and e["op"] != "deleted")
+        def dropped_default(e):
+            if c["kind"] != "call":
+                return False
+            dflt = CALL_DEFAULTS.get((c["cls"], e["key"]), _NO)
+            return dflt is not _NO and gv.build(e["new"]) == dflt
+
+        want = sum(1 for e in c["elems"] if e["type"] == "snap" and e["op"] != "deleted" and not dropped_default(e))
         if new_arg.count("snapshot(") < want:
             fail("inner-snapshot-wrapper-lost", f"{new_arg.count('snapshot(')} inner snapshot( calls left, {want} expected")
     # (4) managed siblings
@@ -412,4 +461,4 @@ def check(case):
             "sample": {"F": F, "before": src, "after_arg": new_arg}}
 
 
-ARMS = [HypArm("mixed", _strategy, check, budget={"quick": 1500, "thorough": 100000})]
+ARMS = [HypArm("mixed", _strategy, check, budget={"quick": 4000, "thorough": 200000})]
